@@ -120,8 +120,31 @@ let run_bv lines =
       | _ -> ()) lines;
   flush_seq !nb !ops
 
+let rec nat_of_int n = if n <= 0 then O else S (nat_of_int (n - 1))
+
+(* mode "dyn": lines for harness/drive_dyn ("new S I" | "s e p" | "g e" | "d e"); output per op: result num_elems *)
+let run_dyn lines =
+  let flush_seq hd ops =
+    match hd with
+    | None -> ()
+    | Some (s, i) ->
+      (match dn_run_new (z_of_int s) (z_of_int i) (List.rev ops) with
+       | None -> print_string "new fail\n"
+       | Some rs ->
+         print_string "new ok\n";
+         List.iter (fun (r, n) -> Printf.printf "%d %d\n" (int_of_z r) (int_of_z n)) rs) in
+  let hd = ref None and ops = ref [] in
+  List.iter (fun line ->
+      match words line with
+      | ["new"; s; i] -> flush_seq !hd !ops; hd := Some (int_of_string s, int_of_string i); ops := []
+      | ["s"; e; p] -> ops := ((z_of_int 0, zi e), nat_of_int (int_of_string p)) :: !ops
+      | ["g"; e] -> ops := ((z_of_int 1, zi e), O) :: !ops
+      | ["d"; e] -> ops := ((z_of_int 2, zi e), O) :: !ops
+      | _ -> ()) lines;
+  flush_seq !hd !ops
+
 let () =
   let mode = if Array.length Sys.argv > 1 then Sys.argv.(1) else "dd" in
   let ic = if Array.length Sys.argv > 2 then open_in Sys.argv.(2) else stdin in
   let lines = List.filter (fun l -> String.length l > 0 && l.[0] <> '#') (read_lines ic) in
-  if mode = "bv" then run_bv lines else run_dd lines
+  if mode = "bv" then run_bv lines else if mode = "dyn" then run_dyn lines else run_dd lines
